@@ -166,6 +166,64 @@ pub fn is_choice(b: B) -> bool {
 
 all_ops!(gen_table);
 
+/// operand of a decoded op: a slot (register / memory / SSA index) or an immediate
+#[derive(Copy, Clone, Debug, PartialEq)]
+pub enum Arg {
+    Slot(u32),
+    Imm(f32),
+}
+
+/// opcode-independent view of an op: which reference opcode it applies to which operands, in the
+/// operand order of the opcode's `eval(lhs, rhs)`.  Generated from the same table as `reg_step` /
+/// `ssa_step` (no wildcard arm).
+#[derive(Copy, Clone, Debug, PartialEq)]
+pub enum Dec {
+    /// (slot read, output index)
+    Output(u32, u32),
+    /// (slot written, input index)
+    Input(u32, u32),
+    /// out = arg
+    Copy(u32, Arg),
+    Un(u32, U, u32),
+    Bin(u32, B, Arg, Arg),
+    /// register <- memory
+    Load(u32, u32),
+    /// memory <- register: (register, memory)
+    Store(u32, u32),
+}
+
+macro_rules! gen_decode {
+    (un: [$(($un:ident, $uo:ident)),*], ri: [$(($ri:ident, $rio:ident)),*], ir: [$(($ir:ident, $iro:ident)),*], rr: [$(($rr:ident, $rro:ident)),*],) => {
+        pub fn reg_decode(op: RegOp) -> Dec {
+            match op {
+                RegOp::Output(r, i) => Dec::Output(r as u32, i),
+                RegOp::Input(r, i) => Dec::Input(r as u32, i),
+                RegOp::CopyReg(o, a) => Dec::Copy(o as u32, Arg::Slot(a as u32)),
+                RegOp::CopyImm(o, c) => Dec::Copy(o as u32, Arg::Imm(c)),
+                RegOp::Load(r, m) => Dec::Load(r as u32, m),
+                RegOp::Store(r, m) => Dec::Store(r as u32, m),
+                $( RegOp::$un(o, a) => Dec::Un(o as u32, U::$uo, a as u32), )*
+                $( RegOp::$ri(o, a, i) => Dec::Bin(o as u32, B::$rio, Arg::Slot(a as u32), Arg::Imm(i)), )*
+                $( RegOp::$ir(o, a, i) => Dec::Bin(o as u32, B::$iro, Arg::Imm(i), Arg::Slot(a as u32)), )*
+                $( RegOp::$rr(o, a, b) => Dec::Bin(o as u32, B::$rro, Arg::Slot(a as u32), Arg::Slot(b as u32)), )*
+            }
+        }
+        pub fn ssa_decode(op: SsaOp) -> Dec {
+            match op {
+                SsaOp::Output(r, i) => Dec::Output(r, i),
+                SsaOp::Input(r, i) => Dec::Input(r, i),
+                SsaOp::CopyReg(o, a) => Dec::Copy(o, Arg::Slot(a)),
+                SsaOp::CopyImm(o, c) => Dec::Copy(o, Arg::Imm(c)),
+                $( SsaOp::$un(o, a) => Dec::Un(o, U::$uo, a), )*
+                $( SsaOp::$ri(o, a, i) => Dec::Bin(o, B::$rio, Arg::Slot(a), Arg::Imm(i)), )*
+                $( SsaOp::$ir(o, a, i) => Dec::Bin(o, B::$iro, Arg::Imm(i), Arg::Slot(a)), )*
+                $( SsaOp::$rr(o, a, b) => Dec::Bin(o, B::$rro, Arg::Slot(a), Arg::Slot(b)), )*
+            }
+        }
+    };
+}
+all_ops!(gen_decode);
+
 pub fn ref_eval(r: Ref, kind: Kind, a: f32, b_or_imm: f32) -> f32 {
     match (r, kind) {
         (Ref::Id, _) => a,
